@@ -1416,3 +1416,52 @@ pub fn run_c07_processes(tier: &str, batch_seed: u64) -> LayerBResult {
     );
     LayerBResult { coverage: cov, violations: r.3.iter().map(|(k, (d, n))| (k.clone(), d.clone(), *n)).collect() }
 }
+
+/// Shrinks the program of a process-level C07 finding (exit status oracle) by re-running the real binary.
+pub fn minimise_c07_process_doc(doc: &J, id: &str, budget: usize) -> J {
+    let lb = match doc.get("layer_b") {
+        Some(l) => l.clone(),
+        None => return doc.clone(),
+    };
+    let mut start = Concrete::new(&lb.str_of("main"));
+    if let Some(o) = lb.get("files").and_then(|f| f.as_obj()) {
+        for (k, t) in o {
+            start.files.insert(k.clone(), t.as_str().unwrap_or("").to_string());
+        }
+    }
+    let cell = Cell::from_json(lb.get("cell").unwrap_or(&J::obj()));
+    let scratch = format!("{}/{}-minb", crate::supervisor::scratch_base(), std::process::id());
+    let _ = std::fs::create_dir_all(&scratch);
+    let runner = Runner::new(&scratch);
+    let test = |c: &Concrete| -> bool {
+        if !c.files.contains_key(&c.main) {
+            return false;
+        }
+        let prog = Program { files: c.files.clone(), main: c.main.clone(), label: String::new(), std_free: false };
+        // a stack overflow only counts while the input stays within the nesting bound
+        let strict = prog.files.values().map(|t| gen::nesting_depth_strict(t)).max().unwrap_or(0);
+        let root = runner.layout(&prog, "m", false);
+        let obs = runner.run_cell(&prog, &cell, &root, &[]);
+        match judge_c07_process(&obs) {
+            Some(v) => v.id() == id && !(v.class == "stack-overflow" && strict > gen::MAX_NESTING),
+            None => false,
+        }
+    };
+    if !test(&start) {
+        let _ = std::fs::remove_dir_all(&scratch);
+        return doc.clone();
+    }
+    let (min, used) = crate::minimise::minimise(&start, None, &test, budget);
+    let _ = std::fs::remove_dir_all(&scratch);
+    let mut files = J::obj();
+    for (k, t) in &min.files {
+        files.put(k, J::s(t));
+    }
+    let mut lb2 = lb;
+    lb2.put("files", files);
+    let mut d = doc.clone();
+    d.put("layer_b", lb2);
+    d.put("minimised", J::Bool(true));
+    d.put("minimiser_executions", J::u(used as u64));
+    d
+}
